@@ -88,6 +88,7 @@ def run(db, chk, quad: bool = False) -> None:
     _builders(db, chk, new, old, OPEN_N, CLOSE_N, START_O, END_O)
     _published_parent(db, chk, old)
     _thread_identity(db, chk, new, old)
+    _host_thread_recognition(db, chk, new, old)
     chk.floor("C03.O4-tie-rules", 12)
     chk.floor("C03.O3-strict-weak-order", 2)
     chk.floor("C03.R3-builder", 8)
@@ -212,6 +213,12 @@ def _builders(db, chk, new, old, OPEN_N, CLOSE_N, START_O, END_O):
     uses = [n for sc in scope for n in ast.walk(sc) if isinstance(n, ast.Call) and H.name_id(n.func) == "_less_than"]
     cmpf = [n for sc in scope for n in ast.walk(sc) if isinstance(n, ast.IfExp)]
     ok = len(uses) == 1 and len(cmpf) == 1 and lit(cmpf[0].body) == -1 and lit(cmpf[0].orelse) == 1 and "cmp_to_key" in ast.unparse(se) and "sorted" in ast.unparse(se)
+    # ... applied ONCE to the whole array: a[:] = sorted(a.tolist(), key=cmp_to_key(cmp)) is the only statement that writes the array
+    arr = next((p_ for p_ in H.param_names(se)), None)
+    writes = [n for n in walk_no_nested(se) if isinstance(n, (ast.Assign, ast.AugAssign)) and any(isinstance(t_, ast.Subscript) and H.name_id(t_.value) == arr for t_ in (n.targets if isinstance(n, ast.Assign) else [n.target]))]
+    whole = [w for w in writes if H.match(f"{arr}[:] = sorted({arr}.tolist(), key=cmp_to_key($c))", w) is not None or H.match(f"{arr}[:] = sorted({arr}, key=cmp_to_key($c))", w) is not None]
+    if ok and not (len(writes) == 1 and len(whole) == 1):
+        ok = None          # another sorting scheme (e.g. per run of equal times): not understood
     chk.ob("C03.R3-builder", f"{NEW}: sort_events = sorted(..., key=cmp_to_key(-1 if _less_than(x, y) else 1))", ok, new.loc(se), found=[ast.unparse(c) for c in cmpf], accepted="-1 if _less_than(x, y) else 1")
     melt = [c for c in H.calls(f) if isinstance(c.func, ast.Attribute) and c.func.attr == "melt"]
     rep = [c for c in H.calls(f) if isinstance(c.func, ast.Attribute) and c.func.attr == "replace"]
@@ -353,4 +360,39 @@ def _thread_identity(db, chk, new, old):
         ok = isinstance(keys, list) and sorted(keys) == ["pid", "tid"]
         chk.ob(rule, f"{mod.name}:{q}: the events are split into threads by (pid, tid)", ok if keys is not None else None, mod.loc(f), found=keys, accepted=["pid", "tid"],
                why="two processes of one rank may reuse a tid: their events, each properly nested, would be interleaved in ONE stack and get parents from the other thread")
+    chk.floor(rule, 2)
+
+
+def _host_thread_recognition(db, chk, new, old):
+    """a thread whose rows all carry stream -1 is a HOST thread for both builders, whatever its pid / tid numbers are: the device inference a builder
+    calls must decide from the stream column alone"""
+    rule = "C03.R8-host-thread-recognition"
+    cgm = db.mod("hta.common.trace_call_graph")
+    for mod, user in ((old, "hta.common.call_stack"), (new, "hta.common.trace_call_stack / trace_call_graph")):
+        res = db.resolve_name(mod, "infer_device_type")
+        if res is None:
+            chk.ob(rule, f"{user}: infer_device_type resolved", None, mod.name, found="unresolved")
+            continue
+        dm, q = res
+        fdef = dm.functions.get(q)
+        if fdef is None:
+            chk.ob(rule, f"{user}: infer_device_type resolved to a function", None, mod.name, found=f"{dm.name}:{q}")
+            continue
+        bad = []
+        for r_ in [n for n in ast.walk(fdef) if isinstance(n, ast.Return) and n.value is not None and ast.unparse(n.value).endswith("GPU")]:
+            cur = dm.parent.get(id(r_))
+            while cur is not None and cur is not fdef:
+                if isinstance(cur, ast.If) and any(r_ is x for b in cur.body for x in ast.walk(b)):
+                    for x in ast.walk(cur.test):
+                        if (isinstance(x, ast.Attribute) and x.attr in ("pid", "tid")) or \
+                                (isinstance(x, ast.Subscript) and H.str_const(x.slice) in ("pid", "tid")):
+                            txt = " ".join(ast.unparse(cur.test).split())[:120]
+                            if txt not in bad:
+                                bad.append(txt)
+                cur = dm.parent.get(id(cur))
+        # also: a GPU decision assigned to a variable under such a test
+        chk.ob(rule, f"builder in {user}: a thread is classified as a device stream by its stream ids alone (a host thread with pid 0 or tid 0 stays a host thread)", not bad, dm.loc(fdef),
+               found=bad or "stream column only", accepted="GPU iff every stream id is positive; CPU iff every stream id is -1",
+               why="`pid == 0 or tid == 0 -> GPU` skips a host thread numbered 0: none of its events appears in the call stack",
+               key=f"{mod.name}->{dm.name}:{q}|gpu-by-pid-or-tid")
     chk.floor(rule, 2)
